@@ -251,7 +251,7 @@ class ModInfo:
         if k == "def":
             return it.decorate(it.make_func(th[1], self, None, th[1].name), None, self)
         if k == "class":
-            return ClassV(th[1], self, th[1].name, None)
+            return it.decorate_class(ClassV(th[1], self, th[1].name, None), th[1], self)
         if k == "assign":
             try:
                 v = it.eval(th[1], Env(None, {}), self)
@@ -476,6 +476,35 @@ class Interp:
             if isinstance(val, Unknown):
                 f.transparent = False
                 return f
+        return val
+
+    def decorate_class(self, cls: ClassV, node: ast.ClassDef, mi: ModInfo) -> Any:
+        """Class decorators defined in the repository are run on the class (registration in a module-level
+        table, returning the class itself or a replacement); the documentation / dataclass / typing ones are
+        transparent; any other one is an analysis gap."""
+        val: Any = cls
+        for d in reversed(node.decorator_list):
+            dn = _dotted(d.func if isinstance(d, ast.Call) else d)
+            short = dn.split(".")[-1] if dn else None
+            if dn is not None and (dn in TRANSPARENT_DECORATORS or short in TRANSPARENT_DECORATORS or short in ("total_ordering", "final", "runtime_checkable", "unique", "verify")):
+                continue
+            try:
+                dec = self.eval(d, Env(None, {}), mi)
+                if not (isinstance(dec, (FuncV, Bound, PartialV)) or (isinstance(dec, Obj) and isinstance(dec.cls, ClassV))):
+                    raise Unsupported(f"decorator value {type(dec).__name__}")
+                saved = self.cur_mod
+                self.cur_mod = mi
+                try:
+                    r = self.call_function(dec, [val], {}, d)
+                finally:
+                    self.cur_mod = saved
+            except Unsupported as e:
+                Interp.note_gap(f"class decorator {dn or ast.unparse(d)} on {cls.qualname} at {mi.rel}:{node.lineno} not modelled ({e})")
+                continue
+            if isinstance(r, ClassV):
+                val = r
+            elif r is not None and r is not val:
+                Interp.note_gap(f"class decorator {dn or ast.unparse(d)} replaces {cls.qualname} by a non-class value")
         return val
 
     # ------------------------------------------------------------------ events
@@ -1120,6 +1149,8 @@ class Interp:
             c_ = st.value
             if isinstance(c_, ast.Call) and isinstance(c_.func, ast.Attribute) and c_.func.attr.endswith("_") and not c_.func.attr.endswith("__") and ((isinstance(v, TV) and v.kind == "tensor") or isinstance(v, Gamma)):
                 recv = c_.func.value
+                if isinstance(recv, ast.NamedExpr) and isinstance(recv.target, ast.Name):
+                    recv = recv.target  # `(q := expr).mul_(c)`: the name just bound is the receiver
                 if isinstance(recv, ast.Name):
                     ok_, cur_ = env.lookup(recv.id)
                     if ok_ and ((isinstance(cur_, TV) and cur_.kind == "tensor") or isinstance(cur_, Gamma)):
@@ -1144,11 +1175,19 @@ class Interp:
             return None
         if isinstance(st, ast.AnnAssign):
             if st.value is not None:
-                self.assign(st.target, self.eval(st.value, env, mi), env, mi, st)
+                v = self.eval(st.value, env, mi)
+                if v is BOTTOM:
+                    return ("raise", None)
+                try:
+                    self.assign(st.target, v, env, mi, st)
+                except (_AssignRaised, _Raised):
+                    return ("raise", None)
             return None
         if isinstance(st, ast.AugAssign):
             cur = self.eval(_load(st.target), env, mi)
             rhs = self.eval(st.value, env, mi)
+            if cur is BOTTOM or rhs is BOTTOM:
+                return ("raise", None)
             res = self.lift(lambda a, b: self.binop(st.op, a, b, st, inplace=True), cur, rhs)
             self.assign(st.target, res, env, mi, st)
             return None
@@ -1370,6 +1409,20 @@ class Interp:
                 if c is False:
                     break
                 if c is not True:
+                    if isinstance(c, T) and not st.orelse:
+                        # the bound comes from an uninterpreted (external) value, e.g. `i < len(doc.params)`:
+                        # as for a `for` over such a collection, the body is evaluated once on uninterpreted
+                        # elements under the guard, and what it assigns becomes conditional
+                        e2 = env.copy()
+                        kind, val = self._guarded(c, True, lambda: self.exec_stmts(list(st.body), e2, mi, lambda e: ("continue", None)))
+                        if kind in ("return", "break"):
+                            raise Unsupported(f"control transfer in a loop bounded by an uninterpreted value at {mi.rel}:{st.lineno}")
+                        self.log("havoc-loop", st, iter=c)
+                        for name in e2.vars:
+                            old = env.vars.get(name, Unknown(f"{name} unbound when the loop body does not run"))
+                            if not value_eq(e2.vars[name], old):
+                                env.vars[name] = self.mkgamma(c, e2.vars[name], old)
+                        break
                     raise Unsupported(f"while loop with undecidable condition at {mi.rel}:{st.lineno}")
                 kind, val = self.exec_stmts(list(st.body), env, mi, lambda e: ("continue", None))
                 if kind == "return":
@@ -1407,7 +1460,7 @@ class Interp:
                         else:
                             self.log("raise", st, exc="KeyError")
                             return ("raise", "KeyError")
-                    elif isinstance(obj, list) and isinstance(idx, int):
+                    elif isinstance(obj, list) and isinstance(idx, (int, slice)):
                         del obj[idx]
                     elif self.dunder(obj, "__delitem__") is not None:
                         if self.call_function(self.dunder(obj, "__delitem__"), [idx], {}, st) is BOTTOM:
@@ -1547,7 +1600,12 @@ class Interp:
                     for p_, nm in zip(pat.patterns, margs):
                         parts.append(self._match(p_, self.getattr(subj, nm, pat), binds, env, mi))
             for nm, p_ in zip(pat.kwd_attrs, pat.kwd_patterns):
-                parts.append(self._match(p_, self.getattr(subj, nm, pat), binds, env, mi))
+                mark_ = len(self.events)
+                av_ = self.getattr(subj, nm, pat)
+                if av_ is BOTTOM:
+                    del self.events[mark_:]  # no such attribute: the pattern does not match (no error)
+                    return False
+                parts.append(self._match(p_, av_, binds, env, mi))
             return conj(parts)
         if isinstance(pat, ast.MatchMapping):
             if not isinstance(subj, dict):
@@ -2130,6 +2188,11 @@ class Interp:
                 return (not r) if neg else r
             if isinstance(a, Obj) and isinstance(b, Obj) and not a.open_attrs and not b.open_attrs:
                 return (a is b) != neg
+            for s_, o_ in ((a, b), (b, a)):
+                # a sentinel made by `object()` in the analysed code is identical only to itself: a value that
+                # comes from elsewhere (a parameter, an element of the caller's list) cannot be it
+                if isinstance(s_, Obj) and s_.cls_name == "builtins.object" and s_.cls is None and o_ is not s_ and not isinstance(o_, (Gamma, Unknown)):
+                    return neg
             if isinstance(a, (TV, Obj)) and isinstance(b, (TV, Obj)):
                 if a is b or _term(a) == _term(b):
                     return not neg
@@ -2366,6 +2429,9 @@ class Interp:
             if attr == "numel":
                 return _Builtin("numel", lambda it, a, k, nd, s=v: num(s.numel()))
             raise Unsupported(f"Size.{attr}")
+        if isinstance(v, (dict, list, str, set)) and not hasattr(type(v), attr) and not hasattr(dict if isinstance(v, dict) else type(v), attr):
+            self.log("raise", node, exc="AttributeError")
+            return BOTTOM
         if isinstance(v, dict):
             return _Builtin(f"dict.{attr}", lambda it, a, k, nd, d=v, at=attr: _dict_method(it, d, at, a, k))
         if isinstance(v, list):
@@ -2396,6 +2462,9 @@ class Interp:
         if isinstance(v, sp.Basic) or isinstance(v, (int, float)):
             if attr in ("is_integer",):
                 return _Builtin("is_integer", lambda it, a, k, nd, x=v: bool(_sym(x).is_integer))
+            if not hasattr(1, attr) and not hasattr(1.0, attr):
+                self.log("raise", node, exc="AttributeError")  # python numbers have no such attribute
+                return BOTTOM
             return Unknown(f"numeric attr {attr}")
         if v is None:
             self.log("raise", node, exc="AttributeError(None)")
@@ -2485,8 +2554,11 @@ class Interp:
         """d[idx] / d.get(idx): keys that are equal to a symbolic index only under a condition
         give a γ-value (the entry under that condition, else the next candidate / `missing`)."""
         idx = self.coerce_enum(idx)
-        if isinstance(idx, T) and _is_cond(idx) and set(d.keys()) <= {True, False} and d:
+        if _is_cond(idx) and set(d.keys()) <= {True, False} and d:
             # {True: a, False: b}[<condition decided at run time>]
+            t_ = self.truth(idx, node)  # (the guards in force and the schema's assumptions may decide it)
+            if t_ is True or t_ is False:
+                return d[t_] if t_ in d else missing()
             a_ = d[True] if True in d else missing()
             b_ = d[False] if False in d else missing()
             return self.mkgamma(idx, a_, b_)
@@ -3201,6 +3273,21 @@ def scalar_binop(name: str, a: Any, b: Any) -> Any:
 
 def scalar_compare(name: str, a: Any, b: Any) -> Any:
     x, y = _sym(a), _sym(b)
+    if any(isinstance(z, sp.Basic) and (z.is_Relational or isinstance(z, sp.logic.boolalg.BooleanFunction)) for z in (x, y)) and name in ("eq", "ne"):
+        # a condition compared with a constant or another condition (`cond == True`, `{True: ..}[cond]`)
+        cx = x if isinstance(x, sp.Basic) else (sp.true if x else sp.false)
+        cy = y if isinstance(y, sp.Basic) else (sp.true if y else sp.false)
+        if cx in (sp.Integer(1), sp.Integer(0)):
+            cx = sp.true if cx == 1 else sp.false
+        if cy in (sp.Integer(1), sp.Integer(0)):
+            cy = sp.true if cy == 1 else sp.false
+        try:
+            e = sp.simplify(sp.Equivalent(cx, cy))
+        except Exception:
+            raise Unsupported("comparison of a condition with a non-boolean value")
+        if name == "ne":
+            e = sp.Not(e)
+        return True if e is sp.true else (False if e is sp.false else e)
     if name in ("eq", "ne"):
         d = sp.simplify(x - y)
         if d == 0:
